@@ -33,8 +33,11 @@ m = {
     "not_applicable": [],
     "notes": "Every check is ./check <id>; VERIF_SEED and VERIF_TIER are honoured. See DESIGN.md.",
 }
+def module_exists(pid):
+    return os.path.exists(os.path.join(VERIF, "lean", *PROPS[pid]["module"].split(".")) + ".lean")
+
 for pid in ALL:
-    if pid in PROPS:
+    if pid in PROPS and module_exists(pid):
         c = PROPS[pid]
         m["checks"].append({
             "property_id": pid,
